@@ -42,5 +42,10 @@ pub mod std_runtime;
 /// Contains the DDS XTypes standard types and methods definitions
 pub mod xtypes;
 
+#[cfg(feature = "verif-hooks")]
+#[doc(hidden)]
+/// Verification hooks: documented wrappers around crate-private codecs (feature `verif-hooks`).
+pub mod verif_hooks;
+
 // To enable using our own derive macros to allow the name dust_dds:: to be used
 extern crate self as dust_dds;
